@@ -39,8 +39,8 @@ func canon(v any) string { return fmt.Sprintf("%v", v) }
 func readVia(src io.Reader, via string, validate, emitInvalid, skipMagic bool) *obsRead {
 	o := &obsRead{}
 	switch via {
-	case "lex":
-		lr := run.LexAll(src, run.LexOpts{SkipMagic: skipMagic, Validate: validate, EmitInvalid: emitInvalid, AttCRC: true, Attachments: true})
+	case "lex", "lexc": // lexc: the caller's own (lenient) zstd / lz4 decompressors instead of the built-in ones
+		lr := run.LexAll(src, run.LexOpts{SkipMagic: skipMagic, Validate: validate, EmitInvalid: emitInvalid, AttCRC: true, Attachments: true, CustomCodecs: via == "lexc"})
 		for _, t := range lr.Toks {
 			m := t.(map[string]any)
 			o.kinds = append(o.kinds, m["k"].(string))
@@ -475,12 +475,16 @@ func readCases(tr *wl.Trace, mode, only string, w wl.Workload, b []byte, f *refm
 						if target == "att" && emitInvalid {
 							continue
 						}
-						p, bit, emitInvalid, ri, target := p, bit, emitInvalid, ri, target
+						for _, via := range []string{"lex", "lexc"} {
+						if via == "lexc" && (target == "att" || len(rec.Compression) == 0 || bit%3 != 0) {
+							continue // caller-supplied decoders: compressed chunks, every third bit
+						}
+						p, bit, emitInvalid, ri, target, via := p, bit, emitInvalid, ri, target, via
 						add(func() wl.Ev {
 							mut := append([]byte{}, b...)
 							mut[p] ^= 1 << bit
-							o := readVia(bytes.NewReader(mut), "lex", true, emitInvalid, false)
-							e := wl.Ev{"ev": "Flip", "target": target, "rec": ri, "pos": p, "bit": bit, "emitInvalid": emitInvalid, "n": len(o.canon),
+							o := readVia(bytes.NewReader(mut), via, true, emitInvalid, false)
+							e := wl.Ev{"ev": "Flip", "via": via, "target": target, "rec": ri, "pos": p, "bit": bit, "emitInvalid": emitInvalid, "n": len(o.canon),
 								"idx": matchIdx(full.o, o, full.toks), "end": o.end, "why": errStr(o.err)}
 							if target == "att" {
 								// the token standing where the attachment stood: exposed iff an error ended the read first or its CRCs disagree
@@ -488,6 +492,7 @@ func readCases(tr *wl.Trace, mode, only string, w wl.Workload, b []byte, f *refm
 							}
 							return e
 						})
+						}
 					}
 				}
 			}
@@ -524,10 +529,14 @@ func readCases(tr *wl.Trace, mode, only string, w wl.Workload, b []byte, f *refm
 					continue
 				}
 				for _, emitInvalid := range []bool{false, true} {
-					emitInvalid, ri, a, mut := emitInvalid, ri, a, mut
+					via := "lex"
+					if len(rec.Compression) > 0 && k%4 >= 2 {
+						via = "lexc"
+					}
+					emitInvalid, ri, a, mut, via := emitInvalid, ri, a, mut, via
 					add(func() wl.Ev {
-						o := readVia(bytes.NewReader(mut), "lex", true, emitInvalid, false)
-						return wl.Ev{"ev": "Flip", "target": "chunk", "rec": ri, "pos": a, "bit": -1, "emitInvalid": emitInvalid, "n": len(o.canon),
+						o := readVia(bytes.NewReader(mut), via, true, emitInvalid, false)
+						return wl.Ev{"ev": "Flip", "via": via, "target": "chunk", "rec": ri, "pos": a, "bit": -1, "emitInvalid": emitInvalid, "n": len(o.canon),
 							"idx": matchIdx(full.o, o, full.toks), "end": o.end, "why": errStr(o.err)}
 					})
 				}
